@@ -234,6 +234,9 @@ impl CompactVector {
     /// # Ok(())
     /// # }
     pub fn get_int(&self, pos: usize) -> Option<usize> {
+        if self.len() <= pos {
+            return None;
+        }
         self.chunks.get_bits(pos * self.width, self.width)
     }
 
